@@ -633,8 +633,42 @@ func (c *Ctx) ruleSettingsGuards() {
 					}
 					return false
 				})
+				if !good && fa.reachable(in) {
+					// the other idiom: leave the function as soon as a duplicate is found - the append is
+					// then simply not reachable from the "found" outcome of any duplicate test
+					tests := 0
+					earlyOK := true
+					for _, b2 := range fn.Blocks {
+						iff, ok := b2.Instrs[len(b2.Instrs)-1].(*ssa.If)
+						if !ok {
+							continue
+						}
+						cond := iff.Cond
+						trueSucc := 0
+						if no, ok := cond.(*ssa.UnOp); ok && no.Op == token.NOT {
+							cond = no.X
+							trueSucc = 1
+						}
+						call, ok := cond.(*ssa.Call)
+						if !ok || c.p.callee(&call.Call) == nil || relName(c.p.callee(&call.Call)) != "strInSlice" {
+							continue
+						}
+						tests++
+						if c.blockReaches(b2.Succs[trueSucc], in.Block()) {
+							earlyOK = false
+						}
+					}
+					// every duplicate test of the function must be such a branch
+					if tests > 0 && tests == len(c.findCalls(fn, "strInSlice")) && earlyOK {
+						good = true
+					}
+				}
 				if good {
-					rep.ok("R-ENCDUP", relName(fn), construct, pos, "the append happens only when the duplicate scan (strInSlice over the existing pairs) found nothing")
+					if msg := c.encScanCoverage(fn, fa, st); msg != "" {
+						rep.bad("R-ENCDUP", relName(fn), construct, pos, msg)
+						continue
+					}
+					rep.ok("R-ENCDUP", relName(fn), construct, pos, "the append happens only when the duplicate scan found nothing, and the scan compares every character of the new entry with every existing pair")
 				} else {
 					rep.bad("R-ENCDUP", relName(fn), construct, pos, "an encapsulation pair can be appended without the duplicate-character test having failed")
 				}
@@ -720,13 +754,29 @@ func (c *Ctx) callSitesOf(fn *ssa.Function) []ssa.Instruction {
 
 func (c *Ctx) ruleLogLevels() {
 	rep := c.rep
-	checkStores := func(name string, op token.Token, allowConsts bool) {
+	// shortcuts: constant stored -> resolved level that must have been tested for
+	checkStores := func(name string, op token.Token, shortcuts map[uint64]int64) {
 		fn := c.anchor("R-LOGLEVEL", name)
 		if fn == nil {
 			return
 		}
 		ord := newOrdinal()
 		n := 0
+		seenShortcut := map[uint64]bool{}
+		defer func() {
+			var ks []uint64
+			for k := range shortcuts {
+				ks = append(ks, k)
+			}
+			sort.Slice(ks, func(i, j int) bool { return ks[i] < ks[j] })
+			for _, k := range ks {
+				if !seenShortcut[k] {
+					rep.bad("R-LOGLEVEL", name, fmt.Sprintf("shortcut %d", k), c.p.pos(fn.Pos()), fmt.Sprintf("no path sets the level set to %d when the resolved level is %d (the documented none/all shortcut is missing)", k, shortcuts[k]))
+				} else {
+					rep.ok("R-LOGLEVEL", name, fmt.Sprintf("shortcut %d", k), c.p.pos(fn.Pos()), fmt.Sprintf("the level set becomes %d when the resolved level is %d", k, shortcuts[k]))
+				}
+			}
+		}()
 		for _, b := range fn.Blocks {
 			for _, in := range b.Instrs {
 				st, ok := in.(*ssa.Store)
@@ -738,10 +788,10 @@ func (c *Ctx) ruleLogLevels() {
 				pos := c.p.instrPos(in)
 				if k, isC := st.Val.(*ssa.Const); isC {
 					v, _ := constant.Uint64Val(k.Value)
-					if allowConsts && (v == 0 || v == 65535) {
+					seenShortcut[v] = true
+					if want, isShortcut := shortcuts[v]; isShortcut {
 						// the shortcut must be guarded by the matching comparison of the resolved level
 						fa := c.eng.analyze(fn, nil)
-						want := int64(v)
 						// find the dominating `x == want` test whose true edge leads here
 						good := false
 						for d := b; d != nil; d = d.Idom() {
@@ -767,10 +817,46 @@ func (c *Ctx) ruleLogLevels() {
 								break
 							}
 						}
+						// an argument that names no level at all leaves the resolved level at its zero value:
+						// the test "level == 0" alone cannot tell it from NoLogLevels, so the resolution flag
+						// must be known true as well
+						if good && want == 0 {
+							var okPhi *ssa.Phi
+							for _, b3 := range fn.Blocks {
+								for _, i3 := range b3.Instrs {
+									ph, isPhi := i3.(*ssa.Phi)
+									if !isPhi {
+										continue
+									}
+									if bt, isB := ph.Type().Underlying().(*types.Basic); !isB || bt.Kind() != types.Bool {
+										continue
+									}
+									for _, e := range ph.Edges {
+										if ex, isX := e.(*ssa.Extract); isX {
+											if lk, isL := ex.Tuple.(*ssa.Lookup); isL && lk.CommaOk {
+												okPhi = ph
+											}
+										}
+									}
+								}
+							}
+							if okPhi == nil {
+								good = false
+							} else {
+								good = fa.allHold(in, func(s *State) bool {
+									v, known := c.knownBool(fa, s, okPhi)
+									return known && v
+								})
+							}
+							if !good {
+								rep.bad("R-LOGLEVEL", name, construct, pos, "the level set is wiped on a path where the argument may not have resolved to any level (an unknown name or unsupported value reads as level 0)")
+								continue
+							}
+						}
 						if good {
-							rep.ok("R-LOGLEVEL", name, construct, pos, fmt.Sprintf("shortcut store of %d guarded by the level being exactly %d", v, v))
+							rep.ok("R-LOGLEVEL", name, construct, pos, fmt.Sprintf("shortcut store of %d guarded by the resolved level being exactly %d", v, want))
 						} else {
-							rep.bad("R-LOGLEVEL", name, construct, pos, fmt.Sprintf("the level set is overwritten with %d without the resolved level being exactly that shortcut", v))
+							rep.bad("R-LOGLEVEL", name, construct, pos, fmt.Sprintf("the level set is overwritten with %d without the resolved level being exactly %d", v, want))
 						}
 						continue
 					}
@@ -805,9 +891,38 @@ func (c *Ctx) ruleLogLevels() {
 		if n == 0 {
 			rep.bad("R-LOGLEVEL", name, "anchor", c.p.pos(fn.Pos()), "no store to the level set found")
 		}
+		// a raw integer becomes a level only when it fits: LogLevel(int) truncates silently
+		// (65536 would read as 0 = "none", -1 as 65535 = "all")
+		fa := c.eng.analyze(fn, nil)
+		tt := c.eng.tt
+		ord2 := newOrdinal()
+		for _, b := range fn.Blocks {
+			for _, in := range b.Instrs {
+				cv, ok := in.(*ssa.Convert)
+				if !ok || !c.p.isNamed(cv.Type(), "LogLevel") {
+					continue
+				}
+				bt, ok := cv.X.Type().Underlying().(*types.Basic)
+				if !ok || bt.Kind() != types.Int {
+					continue
+				}
+				construct := ord2.next("int to LogLevel")
+				pos := c.p.instrPos(in)
+				good := fa.reachable(in) && fa.allHold(in, func(s *State) bool {
+					xt := fa.term(s, cv.X)
+					return c.provesFact(fa, s, Fact{aTR, tt.mk(Term{K: "B", S: "<=", A: c.intConst(0), B: xt}), true}, nil) &&
+						c.provesFact(fa, s, Fact{aTR, tt.mk(Term{K: "B", S: "<=", A: xt, B: c.intConst(65535)}), true}, nil)
+				})
+				if good {
+					rep.ok("R-LOGLEVEL", name, construct, pos, "the integer is known to lie in 0..65535 where it is converted")
+				} else {
+					rep.bad("R-LOGLEVEL", name, construct, pos, "an integer outside 0..65535 is truncated into a level (65536 reads as none, -1 as all)")
+				}
+			}
+		}
 	}
-	checkStores("(*logLevels).shift", token.OR, true)
-	checkStores("(*logLevels).unshift", token.AND_NOT, false)
+	checkStores("(*logLevels).shift", token.OR, map[uint64]int64{0: 0, 65535: 65535})
+	checkStores("(*logLevels).unshift", token.AND_NOT, map[uint64]int64{0: 65535})
 	// positive: (r & level) != 0
 	if fn := c.anchor("R-LOGLEVEL", "logLevels.positive"); fn != nil {
 		ok := false
@@ -886,4 +1001,213 @@ func (c *Ctx) mapLiteral(global string) map[string]string {
 		}
 	}
 	return out
+}
+
+// encScanCoverage: the duplicate scan that guards an append to nodeConfig.enc
+// compares every character of the new entry (indices 0..k-1, k being the entry
+// length established at the call sites) with every existing pair (indices
+// 0..len(enc)-1), and its loops are left only past their bound or once a
+// duplicate has been found.  Returns a complaint or "".
+func (c *Ctx) encScanCoverage(fn *ssa.Function, fa *FnAnalysis, app *ssa.Store) string {
+	tt := c.eng.tt
+	// the entry appended: a parameter
+	var entry *ssa.Parameter
+	if call, ok := app.Val.(*ssa.Call); ok && len(call.Call.Args) == 2 {
+		if e := singleVariadicElem(call.Call.Args[1]); e != nil {
+			entry, _ = e.(*ssa.Parameter)
+		}
+	}
+	if entry == nil {
+		return "the appended entry is not the function's own argument"
+	}
+	pidx := c.eng.paramIndex(fn, entry)
+	// its length, from the call sites
+	k := int64(-1)
+	sites := c.callSitesOf(fn)
+	if len(sites) == 0 {
+		return "no call site establishes the length of the new entry"
+	}
+	for _, site := range sites {
+		cc := callCommon(site)
+		cfa := c.eng.analyze(site.Parent(), nil)
+		args := c.eff.callArgs(cc)
+		if pidx >= len(args) {
+			return "call site does not pass the entry"
+		}
+		found := int64(-1)
+		for cand := int64(0); cand <= 4; cand++ {
+			all := cfa.reachable(site) && cfa.allHold(site, func(s *State) bool {
+				at := cfa.term(s, args[pidx])
+				return c.provesFact(cfa, s, Fact{aTR, tt.mk(Term{K: "B", S: "==", A: c.intConst(cand), B: tt.mk(Term{K: "LEN", A: at})}), true}, nil)
+			})
+			if all {
+				found = cand
+				break
+			}
+		}
+		if found < 0 || (k >= 0 && found != k) {
+			return "the length of the new entry is not a fixed number at the call sites of " + relName(fn)
+		}
+		k = found
+	}
+	covered := map[int64]bool{}
+	isLenEnc := func(v ssa.Value) bool {
+		call, ok := v.(*ssa.Call)
+		if !ok {
+			return false
+		}
+		bi, ok := call.Call.Value.(*ssa.Builtin)
+		if !ok || bi.Name() != "len" {
+			return false
+		}
+		ss := srcSet{}
+		c.sources(fn, call.Call.Args[0], 0, map[ssa.Value]bool{}, ss)
+		return ss["field:nodeConfig.enc"]
+	}
+	hdrOf := func(b *ssa.BasicBlock) []*ssa.BasicBlock {
+		var hs []*ssa.BasicBlock
+		for h, blocks := range fa.loopOf {
+			if blocks[b] {
+				hs = append(hs, h)
+			}
+		}
+		return hs
+	}
+	nScan := 0
+	for _, call := range c.findCalls(fn, "strInSlice") {
+		if len(call.Call.Args) != 2 {
+			continue
+		}
+		// needle: x[idx]
+		nl, ok := call.Call.Args[0].(*ssa.UnOp)
+		if !ok {
+			continue
+		}
+		nia, ok := nl.X.(*ssa.IndexAddr)
+		if !ok || nia.X != ssa.Value(entry) {
+			continue
+		}
+		// haystack: r.enc[u], u running over 0..len(r.enc)-1
+		hl, ok := call.Call.Args[1].(*ssa.UnOp)
+		if !ok {
+			continue
+		}
+		hia, ok := hl.X.(*ssa.IndexAddr)
+		if !ok {
+			continue
+		}
+		hs := srcSet{}
+		c.sources(fn, hia.X, 0, map[ssa.Value]bool{}, hs)
+		if !hs["field:nodeConfig.enc"] {
+			continue
+		}
+		fullHay := false
+		for _, h := range hdrOf(call.Block()) {
+			if first, step, ok := c.loopIndex(hia.Index, h); ok && first == 0 && step == 1 && c.loopBoundIs(h, hia.Index, isLenEnc) {
+				fullHay = true
+			}
+		}
+		if !fullHay {
+			return "a duplicate test does not run over every existing pair (index 0,1,... up to len(enc))"
+		}
+		nScan++
+		if cv, ok := constIntOf(nia.Index); ok {
+			covered[cv] = true
+			continue
+		}
+		for _, h := range hdrOf(call.Block()) {
+			first, step, ok := c.loopIndex(nia.Index, h)
+			if !ok || first != 0 || step != 1 {
+				continue
+			}
+			var bound int64 = -1
+			c.loopBoundIs(h, nia.Index, func(v ssa.Value) bool {
+				if b, ok := constIntOf(v); ok {
+					bound = b
+					return true
+				}
+				if call, ok := v.(*ssa.Call); ok {
+					if bi, ok := call.Call.Value.(*ssa.Builtin); ok && bi.Name() == "len" && call.Call.Args[0] == ssa.Value(entry) {
+						bound = k
+						return true
+					}
+				}
+				return false
+			})
+			for i := int64(0); i < bound; i++ {
+				covered[i] = true
+			}
+		}
+	}
+	if nScan == 0 {
+		return "no duplicate test of a character of the new entry against the existing pairs"
+	}
+	for i := int64(0); i < k; i++ {
+		if !covered[i] {
+			return fmt.Sprintf("character %d of the new entry (of %d) is never compared with the existing pairs: a character already in use would be accepted", i, k)
+		}
+	}
+	// loops are left only past their bound or with a duplicate found
+	for hdr, blocks := range fa.loopOf {
+		iff, _ := hdr.Instrs[len(hdr.Instrs)-1].(*ssa.If)
+		for bi, succs := range fa.edgeOut {
+			if !blocks[bi] {
+				continue
+			}
+			for j, sb := range bi.Succs {
+				if blocks[sb] || j >= len(succs) {
+					continue
+				}
+				for _, s := range succs[j] {
+					if s.dead {
+						continue
+					}
+					okExit := false
+					if iff != nil && bi == hdr {
+						if v, known := fa.knownTerm(s, aTR, fa.term(s, iff.Cond)); known && !v {
+							okExit = true
+						}
+					}
+					for _, fct := range s.factList() {
+						if fct.Kind == aTR && fct.Val && fct.T.K == "APP" && fct.T.S == "strInSlice" {
+							okExit = true
+						}
+						if fct.Kind == aTR && fct.Val {
+							for _, mv := range fct.T.vals {
+								if len(callsBehind(c, mv, "strInSlice")) > 0 {
+									okExit = true
+								}
+							}
+						}
+					}
+					if !okExit {
+						return fmt.Sprintf("the duplicate scan can be left early (block %d -> %d) with no duplicate found and pairs left to compare", bi.Index, sb.Index)
+					}
+				}
+			}
+		}
+	}
+	return ""
+}
+
+// blockReaches: to is reachable from from in the CFG (from itself included).
+func (c *Ctx) blockReaches(from, to *ssa.BasicBlock) bool {
+	seen := map[*ssa.BasicBlock]bool{}
+	var walk func(b *ssa.BasicBlock) bool
+	walk = func(b *ssa.BasicBlock) bool {
+		if b == to {
+			return true
+		}
+		if seen[b] {
+			return false
+		}
+		seen[b] = true
+		for _, s := range b.Succs {
+			if walk(s) {
+				return true
+			}
+		}
+		return false
+	}
+	return walk(from)
 }
